@@ -36,6 +36,8 @@ def build(rng, facts, name):
     for kind in rng.sample(TARGETS, 3):
         for P in ("P", "P3"):
             b.emit("kfromproto r %s %s" % (P, kind), "ok"); b.emit("kobs r", expect_decoded(j0, kind, loose=arbitrary))
+    # FromProto = the default (paginated) store provider
+    b.emit("kfromproto r P default", "ok"); b.emit("kobs r", expect_decoded(j0, "pag", loose=arbitrary))
     return b
 
 def build_store(rng, name):
@@ -53,6 +55,10 @@ def build_store(rng, name):
         t = Shadow(k2)
         for i in sorted(sh.m): t.add(i, sh.m[i])
         b.emit("obs t", t.obsline())
+    b.emit("newfromproto d p3", "ok")          # store.FromProto: a fresh dense store holding the message's content
+    t = Shadow("dense")
+    for i in sorted(sh.m): t.add(i, sh.m[i])
+    b.emit("obs d", t.obsline())
     # hand-built message mixing sparse and contiguous counts: they add up
     bins = {}
     for _ in range(rng.randint(0, 6)): bins[base + rng.randint(-10, 10)] = rng.choice([1.0, 2.0, 0.5, 4.0])
